@@ -615,6 +615,16 @@ pub fn any_emsg<const S: usize, const V: usize, const M: usize>(version: u8) -> 
         message_data: m.to_vec(),
     }
 }
+/// emsg whose scheme_id_uri starts with a two-byte UTF-8 character (bytes != chars) followed by
+/// one symbolic ASCII byte; value = one symbolic ASCII byte; M message bytes.
+pub fn any_emsg_utf8<const M: usize>(version: u8) -> EmsgBox {
+    let mut v = any_emsg::<0, 1, M>(version);
+    let a: u8 = kani::any();
+    kani::assume(a >= 1 && a < 0x80);
+    v.scheme_id_uri = unsafe { String::from_utf8_unchecked(vec![0xC3, 0xA9, a]) };
+    v
+}
+
 pub fn ref_emsg(v: &EmsgBox, out: &mut [u8]) -> usize {
     let mut w = RefW::new(out);
     let s = w.begin_full(b"emsg", v.version, v.flags);
